@@ -217,7 +217,7 @@ def run(tier, replay=None):
     from . import simreplay
     ref0 = run_jobs([(1, False, False, None, 0, {"obs_re": None})], 1) \
         if False else None
-    prob = simreplay.Problem(dict(four=True), seed=5).prepare()
+    prob = simreplay.Problem(dict(four=True), seed=5).prepare(oracles=False)
     obs = prob.obs
     ref = {}
     GM = ("same", "input", "dict")
